@@ -492,9 +492,11 @@ def strip_clones(fn, o, depth=0):
                 return q[0]
             if r["k"] == "use" and op_place(r["o"]) is not None:
                 return strip_clones(fn, r["o"], depth + 1)
+            if r["k"] == "cast" and r["ck"].startswith("Coerce") and op_place(r["o"]) is not None:
+                return strip_clones(fn, r["o"], depth + 1)
         elif d[0] == "call":
             t = d[2]
-            if t.get("f") in ("core::clone::Clone::clone", "alloc::borrow::ToOwned::to_owned") and t["a"]:
+            if t.get("f") in ("core::clone::Clone::clone", "alloc::borrow::ToOwned::to_owned", "core::ops::deref::Deref::deref", "core::ops::deref::DerefMut::deref_mut", "core::convert::AsRef::as_ref", "alloc::vec::Vec::<T, A>::as_slice") and t["a"]:
                 return strip_clones(fn, t["a"][0], depth + 1)
     return l
 
